@@ -22,6 +22,7 @@ fn main() {
     let mut legs: Vec<(String, String)> = Vec::new();
     let mut extra: Vec<String> = Vec::new();
     let mut child = false;
+    let mut legs_only = false;
     let mut i = 1;
     while i < args.len() {
         match args[i].as_str() {
@@ -54,6 +55,7 @@ fn main() {
                 }
             }
             "--child" => child = true,
+            "--legs-only" => legs_only = true,
             other => extra.push(other.to_string()),
         }
         i += 1;
@@ -85,9 +87,14 @@ fn main() {
         if let Some(t) = j.get("tier").and_then(|s| s.as_str()) {
             run.tier = if t == "thorough" { Tier::Thorough } else { Tier::Quick };
         }
-        run.replay = Some(ReplayReq { sub, idx });
+        let first = j.get("prefix_from").and_then(|s| s.as_u64());
+        run.replay = Some(ReplayReq { sub, idx, first });
     }
-    if !lv::props::dispatch(&mut run, &extra) {
+    if legs_only {
+        // (used by the supervisor after the native workload process died without a reproducible culprit: what the
+        // sanitizer / interpreter / unchecked legs found must not be lost with it)
+        run.merged.inconclusive("the native workload process died from a signal that no single case reproduces; only the legs are reported");
+    } else if !lv::props::dispatch(&mut run, &extra) {
         eprintln!("ERROR unknown property {}", prop);
         std::process::exit(2);
     }
@@ -159,18 +166,25 @@ fn supervise(args: &[String], prop: &str, tier: Tier, seed: u64, replay: Option<
         end.code = c.wait().ok().and_then(|s| s.code());
         end
     };
-    let probe = |sub: &str, idx: u64| -> ChildEnd {
+    let probe_from = |sub: &str, idx: u64, first: Option<u64>| -> ChildEnd {
         let dir = format!("{}/target/abort-probe", lv::ctx::VERIF_DIR);
         let _ = std::fs::create_dir_all(&dir);
         let path = format!("{}/{}-{}-{}.json", dir, prop, std::process::id(), idx);
-        let rep = json::J::obj().set("property", prop).set("tier", tier.name()).set("seed", seed).set("sub", sub).set("index", idx);
+        let mut rep = json::J::obj().set("property", prop).set("tier", tier.name()).set("seed", seed).set("sub", sub).set("index", idx);
+        if let Some(f) = first {
+            rep.put("prefix_from", f);
+        }
         let _ = std::fs::write(&path, rep.to_string_pretty());
         let probe_args: Vec<String> = vec![prop.to_string(), "--tier".into(), tier.name().into(), "--seed".into(), seed.to_string(), "--replay".into(), path.clone()];
-        eprintln!("[supervisor] replaying {}[{}] alone in a fresh process", sub, idx);
+        match first {
+            None => eprintln!("[supervisor] replaying {}[{}] alone in a fresh process", sub, idx),
+            Some(f) => eprintln!("[supervisor] replaying {}[{}..={}] one after the other on one thread in a fresh process", sub, f, idx),
+        }
         let e = run_child(&probe_args);
         let _ = std::fs::remove_file(&path);
         e
     };
+    let probe = |sub: &str, idx: u64| -> ChildEnd { probe_from(sub, idx, None) };
     let report = |sub: &str, idx: u64, sig: String, what: &str, tail: &[String]| -> i32 {
         let mut run = Run::new(prop, tier, seed);
         run.merged.cur_sub = sub.to_string();
@@ -253,8 +267,46 @@ fn supervise(args: &[String], prop: &str, tier: Tier, seed: u64, replay: Option<
             );
         }
     }
+    // not alone: perhaps it needs the calls made before it (state kept between calls on a thread). Replay the cases
+    // leading up to it, in order, on one thread of a fresh process.
+    for idx in a.own.into_iter().chain(a.active.iter().cloned()).take(3) {
+        let first = idx.saturating_sub(200_000);
+        let p = probe_from(&a.sub, idx, Some(first));
+        if p.code == Some(1) {
+            // the history leading up to the fatal case already contains violations that the dying process could
+            // not report; the replaying process has printed them and written the evidence
+            eprintln!("[supervisor] the replayed history reports violations of its own (the fatal case itself did not recur)");
+            return 1;
+        }
+        if died(p.code) {
+            let what2 = fatal_message(&p.tail).unwrap_or_else(|| what.clone());
+            let sig_no = p.abort.as_ref().map(|x| x.signal).unwrap_or(a.signal);
+            let last = p.abort.as_ref().and_then(|x| x.own.or(x.active.first().cloned())).unwrap_or(idx);
+            let mut run = Run::new(prop, tier, seed);
+            run.merged.cur_sub = a.sub.clone();
+            run.merged.cur_idx = last;
+            run.replay_prefix_from = Some(first);
+            run.merged.violation(
+                format!("the process is killed (signal {}: {}) after a history of calls on one thread [{}]", sig_no, what2, a.sub),
+                json::J::obj()
+                    .set("what", "the case ends the whole process, but only after the cases before it ran on the same thread (state kept between calls); reproduced by replaying the cases prefix_from..=index in order on one thread of a fresh process")
+                    .set("prefix_from", first)
+                    .set("stderr_tail", json::J::A(p.tail.iter().map(|s| json::J::S(s.clone())).collect())),
+            );
+            run.assumptions.push("the workload process did not finish; this evidence was written by the supervising process and only describes the fatal case".to_string());
+            return run.finish();
+        }
+    }
+    if replay.is_none() && args.iter().any(|a| a == "--legs") {
+        let mut a2: Vec<String> = args.to_vec();
+        a2.push("--legs-only".into());
+        let e = run_child(&a2);
+        if e.code == Some(1) {
+            return 1;
+        }
+    }
     println!(
-        "INCONCLUSIVE property={} the workload process died from a signal ({}) in {} but none of the {} cases in flight reproduces it alone",
+        "INCONCLUSIVE property={} the workload process died from a signal ({}) in {} but none of the {} cases in flight reproduces it alone or after the cases before it",
         prop,
         what,
         a.sub,
